@@ -161,10 +161,10 @@ func init() {
 	engine.Register(&engine.Prop{
 		ID: "C19",
 		Shards: func(th bool) []string {
-			return []string{"range", "between", "until", "template", "groupBy:string", "groupBy:int", "groupBy:struct", "groupBy:pointer", "groupBy:errors", "len"}
+			return []string{"range", "alive", "between", "until", "template", "groupBy:string", "groupBy:int", "groupBy:struct", "groupBy:pointer", "groupBy:errors", "len"}
 		},
 		Run:  c19Run,
-		Rule: "range(a,b), between(a,b) for all pairs and until(n) for all n over [-8,8] ∪ {MinInt, MinInt+1, MaxInt-1, MaxInt}: drained under a Next() budget (first 24 values of long intervals), exact values, exhaustion is sticky; the same intervals (small ones) through a template for loop with a running count. groupBy in both shipped implementations (helpers/iterators.GroupBy and plush.GroupByHelper) for every length 0..40 x n in -1..12 x element type {string,int,struct,pointer} x {slice, pointer to slice, array, pointer to array, slice / pointer to slice with spare capacity holding other elements}: n<=0 is an error, otherwise <=n non-empty consecutive groups of xs's element type whose concatenation is xs, all but the last of equal size, and both implementations agree group by group, also while other groupBy iterators are alive and partly read (and nested in a template; a value built from a group with + leaves the later groups and xs as they were); non-sequences are errors. len(x) equals Go's len for string/slice/array/map/pointer to one, directly and through a template. Non-trivial: non-empty sequences.",
+		Rule: "range(a,b), between(a,b) for all pairs and until(n) for all n over [-8,8] ∪ {MinInt, MinInt+1, MaxInt-1, MaxInt}: drained under a Next() budget (first 24 values of long intervals), exact values, exhaustion is sticky; the same intervals (small ones) through a template for loop with a running count; (alive) every triple of 5 iterators: the first drained and polled 0..3 more times, then the other two created and read interleaved while the first is polled again - each yields exactly its own sequence, exhaustion is for ever. groupBy in both shipped implementations (helpers/iterators.GroupBy and plush.GroupByHelper) for every length 0..40 x n in -1..12 (and n in {1000, 2^20, 2^40, MaxInt/2+1, MaxInt-1, MaxInt, MinInt} for lengths <=6) x element type {string,int,struct,pointer} x {slice, pointer to slice, array, pointer to array, slice / pointer to slice with spare capacity holding other elements}: n<=0 is an error, otherwise <=n non-empty consecutive groups of xs's element type whose concatenation is xs, all but the last of equal size, and both implementations agree group by group, also while other groupBy iterators are alive and partly read (and nested in a template; a value built from a group with + leaves the later groups and xs as they were); non-sequences are errors. len(x) equals Go's len for string/slice/array/map/pointer to one, directly and through a template. Non-trivial: non-empty sequences.",
 		Bound: func(th bool) string {
 			return "int domain [-8,8] plus 4 extremes (all pairs); lengths 0..40 x n -1..12 x 4 element types x 4 container shapes"
 		},
@@ -193,6 +193,88 @@ func c19Run(t *engine.T, shard string) {
 				})
 			}
 		}
+	case shard == "alive":
+		// several iterators alive at once, old ones polled again after exhaustion: every iterator yields exactly
+		// its own sequence and, once exhausted, nil for ever - whatever other iterators are created or polled meanwhile
+		type spec struct {
+			name   string
+			mk     func() iterators.Iterator
+			lo, hi int
+		}
+		specs := []spec{
+			{"range(1,2)", func() iterators.Iterator { return iterators.Range(1, 2) }, 1, 2},
+			{"until(3)", func() iterators.Iterator { return iterators.Until(3) }, 0, 2},
+			{"between(4,8)", func() iterators.Iterator { return iterators.Between(4, 8) }, 5, 7},
+			{"range(100,102)", func() iterators.Iterator { return iterators.Range(100, 102) }, 100, 102},
+			{"range(5,4)", func() iterators.Iterator { return iterators.Range(5, 4) }, 5, 4},
+		}
+		for ai, a := range specs {
+			for bi, b := range specs {
+				for ci, c := range specs {
+					for extra := 0; extra <= 3; extra++ {
+						a, b, c, extra := a, b, c, extra
+						t.Case(fmt.Sprintf("alive %s drained, polled %d more times, then %s and %s interleaved", a.name, extra, b.name, c.name), true, func() (string, *engine.Fail) {
+							drain := func(it iterators.Iterator, s spec, what string) *engine.Fail {
+								for v := s.lo; v <= s.hi; v++ {
+									if got := it.Next(); got != v {
+										return engine.Failf("sequence", "%s %s: expected %d, got %v", what, s.name, v, got)
+									}
+								}
+								return nil
+							}
+							ia := a.mk()
+							if f := drain(ia, a, "first iterator"); f != nil {
+								return "", f
+							}
+							for i := 0; i <= extra; i++ {
+								if got := ia.Next(); got != nil {
+									return "", engine.Failf("sequence", "exhausted %s yields %v on extra poll %d", a.name, got, i+1)
+								}
+							}
+							ib, ic := b.mk(), c.mk()
+							if got := ia.Next(); got != nil {
+								return "", engine.Failf("sequence", "exhausted %s yields %v after %s and %s were created", a.name, got, b.name, c.name)
+							}
+							// interleave b and c one value at a time
+							vb, vc := b.lo, c.lo
+							for vb <= b.hi || vc <= c.hi {
+								if vb <= b.hi {
+									if got := ib.Next(); got != vb {
+										return "", engine.Failf("sequence", "%s (alive together with %s): expected %d, got %v", b.name, c.name, vb, got)
+									}
+									vb++
+								}
+								if vc <= c.hi {
+									if got := ic.Next(); got != vc {
+										return "", engine.Failf("sequence", "%s (alive together with %s): expected %d, got %v", c.name, b.name, vc, got)
+									}
+									vc++
+								}
+								if got := ia.Next(); got != nil {
+									return "", engine.Failf("sequence", "exhausted %s yields %v while later iterators are read", a.name, got)
+								}
+							}
+							if ib.Next() != nil || ic.Next() != nil || ia.Next() != nil || ib.Next() != nil {
+								return "", engine.Failf("sequence", "an exhausted iterator yields a value")
+							}
+							return "alive", nil
+						})
+					}
+					_ = ci
+				}
+				_ = bi
+			}
+			_ = ai
+		}
+		// the same through a template: an iterator held in a variable and looped over again later
+		t.Case("alive template", true, func() (string, *engine.Fail) {
+			out, err := Render(`<% let a = range(1, 2) %><%= for (v) in a { %><%= v %>,<% } %>|<% let b = until(3) %><%= for (v) in a { %><%= v %>,<% } %>|<%= for (v) in b { %><%= v %>,<% } %>|<%= for (v) in a { %><%= v %>,<% } %><%= for (v) in range(7, 8) { %><%= for (w) in range(1, 2) { %><%= v %><%= w %>,<% } %><% } %>`, plush.NewContext())
+			want := "1,2,||0,1,2,|71,72,81,82,"
+			if err != nil || out != want {
+				return "", engine.Failf("sequence", "expected %q, got %q / %v", want, out, err)
+			}
+			return "alive", nil
+		})
 	case shard == "between":
 		for _, a := range D {
 			for _, b := range D {
@@ -326,7 +408,15 @@ func c19Run(t *engine.T, shard string) {
 	case strings.HasPrefix(shard, "groupBy:") && shard != "groupBy:errors":
 		kind := strings.TrimPrefix(shard, "groupBy:")
 		for L := 0; L <= maxLen; L++ {
+			ns := []int{}
 			for n := -1; n <= maxN; n++ {
+				ns = append(ns, n)
+			}
+			if L <= 6 {
+				// group counts far beyond the length, up to the extremes of int
+				ns = append(ns, 1000, 1<<20, 1<<40, c19Max/2+1, c19Max-1, c19Max, c19Min)
+			}
+			for _, n := range ns {
 				for _, shape := range []string{"slice", "ptr-slice", "array", "ptr-array", "slice-with-spare-capacity", "ptr-slice-with-spare-capacity"} {
 					mk := func() interface{} {
 						sl := c19Slice(kind, L)
@@ -377,11 +467,11 @@ func c19Run(t *engine.T, shard string) {
 						if err1 != nil || err2 != nil {
 							return "", engine.Failf("groupBy", "unexpected error %v / %v", err1, err2)
 						}
-						g1, f := c19Groups(it1, n+2)
+						g1, f := c19Groups(it1, min(n, L+1)+2)
 						if f != nil {
 							return "", f
 						}
-						g2, f := c19Groups(it2, n+2)
+						g2, f := c19Groups(it2, min(n, L+1)+2)
 						if f != nil {
 							return "", f
 						}
